@@ -100,6 +100,7 @@ def random_script(flavour, seed, nops=28):
     files = {}                       # iso path -> dict(j=[joliet paths], cid, links=[other iso paths])
     contents = 0
     symlinks = []
+    jonly = []
     ops = []
     counter = [0]
 
@@ -124,7 +125,14 @@ def random_script(flavour, seed, nops=28):
     for _ in range(nops):
         r = rnd.random()
         parents = [d for d in dirs if d.count('/') < maxdepth - 1]
-        if r < 0.38 or not files:
+        if jol and r < 0.04:
+            # a file that exists in the Joliet tree only
+            d = rnd.choice(parents)
+            k = fresh()
+            ops.append(('jfile', dirs[d][1] + '/' + jname(k), rnd.choice([0, 3, 2049])))
+            jonly.append(ops[-1][1])
+            contents += 1
+        elif r < 0.38 or not files:
             d = rnd.choice(parents)
             k = fresh()
             ip = '%s/F%d.;1' % (d, k)
@@ -151,7 +159,8 @@ def random_script(flavour, seed, nops=28):
                 files.pop(other)
         elif r < 0.75:
             empties = [d for d in dirs if d and not any(p.startswith(d + '/') for p in list(files) + list(dirs) + symlinks)
-                       and not any(jp and jp.startswith(dirs[d][1] + '/') for g in files.values() for jp in g['j'])]
+                       and not any(jp and jp.startswith(dirs[d][1] + '/') for g in files.values() for jp in g['j'])
+                       and not any(jp.startswith(dirs[d][1] + '/') for jp in jonly)]
             if not empties:
                 continue
             d = rnd.choice(empties)
@@ -278,6 +287,10 @@ def model_of(script):
         elif op[0] == 'rm_link':
             iso.pop(op[1], None)
             rr.pop(op[1], None)
+        elif op[0] == 'jfile':
+            cid = len(content)
+            content[cid] = op[2]
+            jol[op[1]] = ('file', cid)
         elif op[0] == 'jdir':
             jol[op[1]] = ('dir',)
         elif op[0] == 'jlink':
@@ -313,6 +326,11 @@ def build(c, name):
             S.call(c, iso, 'add_fp', S.data_file(c, data), size, **k)
         elif op[0] == 'rm_link':
             S.call(c, iso, 'rm_hard_link', iso_path=op[1])
+        elif op[0] == 'jfile':
+            cid = len(contents)
+            data = c.bytes('content%d' % cid, op[2])
+            contents[cid] = data
+            S.call(c, iso, 'add_fp', S.data_file(c, data), op[2], joliet_path=op[1])
         elif op[0] == 'jdir':
             S.call(c, iso, 'add_directory', joliet_path=op[1])
         elif op[0] == 'jlink':
